@@ -20,7 +20,7 @@ RULE = (
     "re-expression in another unit; after the same category is registered again (override) with another limit "
     "configuration the verdicts follow the definition in force. Registration oracle: an accepted registration has default_unit in units(type), a "
     "default value that satisfies the limits, Scalar(category).IsValid(); an inconsistent one raises and leaves the "
-    "registry unchanged. Results of + and - between objects of the category written in different units (Scalar, list, ndarray) are validated by their amount like objects that were written down. Non-trivial = limits present and a value within 3 ulp of a boundary, or an array with a NaN "
+    "registry unchanged. Results of + and - between objects of the category written in different units (Scalar, list, ndarray) are validated by their amount like objects that were written down. After a unit was used without a category and its default category is re-registered with limits, the category-less forms (Scalar(v,u), Scalar((v,u)), Array, FractionScalar) are validated by the definition in force. Non-trivial = limits present and a value within 3 ulp of a boundary, or an array with a NaN "
     "and an out-of-range element; key = (limit config, unit, container, verdict)."
 )
 ASSUMPTIONS = ["an infinite value whose float conversion to the default unit is NaN (0*inf in the POSC formula) satisfies no limit, exactly as the database conversion says", "NaN inside tuple-of-tuples containers is not asserted (unspecified by the statement)", "the reference uses the same db float conversion as the statement names, so boundary cases are compared exactly"]
@@ -329,6 +329,44 @@ class Checker:
         if u != cfg["default_unit"]:
             ctx.cls("unit_differs_from_default")
 
+    def check_category_less_forms(self, case):
+        """case: less=True, u, cfg, values.  The unit's default category is re-registered (override) with limits after
+        the unit was used without a category; objects then created *without* a category are objects of that category
+        and are validated by the definition in force."""
+        import numpy
+
+        from barril.basic.fraction import FractionValue
+        from barril.units import Array, FractionScalar, Scalar
+
+        ctx, db = self.ctx, self.db
+        u = case["u"]
+        c = db.GetDefaultCategory(u)
+        qt = db.GetCategoryQuantityType(c)
+        Scalar(3.0, u), Array([1.0, 2.0], u)  # used before the category is redefined
+        cfg = self.register(dict(case["cfg"], qt=qt), case, name=c, override=True)
+        if cfg is None:
+            return
+        ctx.cls("default_category_redefined_after_category_less_use")
+        for spec in case["values"][:4]:
+            x = self.value_from(cfg, u, spec)
+            v = self.amount(cfg, u, x)
+            if not math.isfinite(x) or self.near_boundary(cfg, v):
+                continue
+            want, _why = satisfies(v, cfg)
+            for what, fn in (
+                ("Scalar(v,u)", lambda: Scalar(x, u).IsValid()),
+                ("Scalar((v,u))", lambda: Scalar((x, u)).IsValid()),
+                ("Array([v],u)", lambda: Array([x], u).IsValid()),
+                ("Array(ndarray,u)", lambda: Array(numpy.array([x]), u).IsValid()),
+                ("FractionScalar(v,u)", lambda: FractionScalar(FractionValue(number=x), u).IsValid()),
+                ("Scalar(v,u,c)", lambda: Scalar(x, u, c).IsValid()),
+            ):
+                ctx.ev()
+                got = fn()
+                if got != want:
+                    ctx.fail("verdict_wrong:category_less_form_after_override:%s" % ("accepts_invalid" if got else "rejects_valid"), dict(case, x=x), "%s with %r %s after %r was re-registered with limits %r: IsValid()=%r, the limits say %r" % (what, x, u, c, _lim(cfg), got, want))
+        ctx.nontrivial(("category_less", u, _lim(cfg)), case if len(ctx.samples) < 8 else None)
+
     def check_results_of_arithmetic(self, cfg, case, u, w, xs):
         """an object of the category that came out of + or - (operands in different units) is validated like one that
         was written down: by its amount in the category's default unit"""
@@ -461,7 +499,15 @@ def case_strategy(db):
             "values": draw(st.lists(vals, min_size=0, max_size=8)),
         }
 
-    return case()
+    units_with_default = [u for qt in QTS for u in db.GetUnits(qt)[:6]]
+
+    @st.composite
+    def less_case(draw):
+        u = draw(st.sampled_from(units_with_default))
+        qt = db.GetCategoryQuantityType(db.GetDefaultCategory(u))
+        return {"less": True, "u": u, "cfg": draw(cfg(qt=qt)), "values": draw(st.lists(vals, min_size=2, max_size=6))}
+
+    return case(), less_case()
 
 
 _ST = {}
@@ -478,6 +524,15 @@ def _checker(ctx):
 
 
 def run_case(ctx, case):
+    if case.get("less"):
+        # these cases redefine categories of the shipped table: a database of their own, renewed now and then
+        ch = _ST.get("less")
+        if ch is None or ch.counter > 150:
+            ch = _ST["less"] = Checker(ctx, env.new_db("posc"))
+        ch.ctx = ctx
+        with env.pushed(ch.db):
+            ch.check_category_less_forms(case)
+        return
     ch = _checker(ctx)
     with env.pushed(ch.db):
         ch.check(case)
@@ -485,7 +540,7 @@ def run_case(ctx, case):
 
 def run_shard(spec, ctx):
     db = env.new_db("posc")
-    strat = case_strategy(db)
+    strat, less = case_strategy(db)
 
     def mk():
         @given(strat)
@@ -495,6 +550,15 @@ def run_shard(spec, ctx):
         return test
 
     core.hunt(ctx, mk, spec["seed"] * 1000 + spec["shard"], spec["n"])
+
+    def mk2():
+        @given(less)
+        def test(case):
+            core.guarded(ctx, lambda c: run_case(ctx, c), case)
+
+        return test
+
+    core.hunt(ctx, mk2, spec["seed"] * 1000 + spec["shard"] + 300, max(40, spec["n"] // 8))
 
 
 def replay(case, ctx):
